@@ -41,6 +41,9 @@ def corr(ctx, ncase):
         ctx.count("op_" + op)
         if op == "scaled":
             pts = GC.dy(rng.uniform(-6, 6, (n, 3)))
+            if k % 8 < 4:      # points ON cell faces / lattice points: fractional coordinates that are exactly 0, 1, -1, 2 or quarters
+                pts = (rng.integers(-8, 9, (n, 3)) / 4.0) @ np.asarray(cell, dtype=float)
+                ctx.count("scaled_points_on_faces")
             w = int(rng.integers(0, 2))
             lines.append("scaled %s %s %d %s" % (GC.fmt_vecs(cell), GC.fmt_pbc(pbc), w, GC.fmt_vecs(pts)))
             cases.append((op, cell, pbc, w, pts))
